@@ -420,6 +420,60 @@ func c06SlowSetup(k connCfg, writeDelay, echoDelay time.Duration) func(c *fw.Ctx
 	}
 }
 
+// The receiving side of a slow handshake: the endpoint reads with a context of its own that ends at
+// readCtx; the peer's Close frame arrives at 150 ms; the endpoint's transport takes nothing until
+// 150 ms + echoTakes (within the 5 s allowed for writing a Close frame). The read reports the peer's
+// code and reason and the echo reaches the wire, whether or not the reading call's context ends in
+// between: the echo is not part of that call.
+func c06SlowEchoSetup(k connCfg, readCtx, echoTakes time.Duration) func(c *fw.Ctx, name string) explore.Setup {
+	return func(c *fw.Ctx, name string) explore.Setup {
+		return func(w *vs.World) func(bool) {
+			p := vpipe.New()
+			p.Window = 1
+			var err error
+			done := false
+			w.GoHarness("main", true, func() {
+				conn := mkConn(p, k)
+				w.GoHarness("peer", false, func() {
+					vtime.Sleep(150 * time.Millisecond)
+					p.Send(peerClose(k, 1000, "bye"))
+					vtime.Sleep(echoTakes)
+					p.SetWindow(0)
+				})
+				ctx, cancel := vctx.WithTimeout(vctx.Background(), readCtx)
+				_, _, err = conn.Read(ctx)
+				cancel()
+				done = true
+				vtime.Sleep(6 * time.Second)
+				conn.CloseNow()
+			})
+			return func(complete bool) {
+				if !complete {
+					return
+				}
+				locus := fmt.Sprintf("slow-echo/read-ctx-%v-echo-%v/%s", readCtx, echoTakes, k.String())
+				if w.Panic != "" {
+					violate(c, w, name, "C06/panic/"+locus, w.Panic)
+					return
+				}
+				f, echoed := firstClose(p.Out)
+				c.OutcomeStr(fmt.Sprintf("%s|done=%v|status=%d|echoed=%v", name, done, websocket.CloseStatus(err), echoed))
+				if !done {
+					violate(c, w, name, "C06/read-never-returns/"+locus, fmt.Sprintf("stuck %v", stuckTasks(w)))
+					return
+				}
+				if readCtx > 150*time.Millisecond && websocket.CloseStatus(err) != 1000 {
+					violate(c, w, name, "C06/receiver/close-error-differs/"+locus, fmt.Sprintf("the peer's Close frame (1000, \"bye\") arrived at 150 ms, well before the read's context ended (%v); the read returned %v", readCtx, err))
+					return
+				}
+				if websocket.CloseStatus(err) == 1000 && (!echoed || closeCodeOf(f) != 1000) {
+					violate(c, w, name, "C06/receiver/close-not-echoed/"+locus, fmt.Sprintf("the read reported the peer's Close frame (1000); the echo needed %v to get out (5 s are allowed) but the wire carries %s", echoTakes, describeFrames(connFrames(p.Out))))
+				}
+			}
+		}
+	}
+}
+
 func c06SlowScenarios(tier string) []scenario {
 	var scs []scenario
 	cfg := explore.Config{P: 1, T: 1, Horizon: 60e9}
@@ -429,6 +483,9 @@ func c06SlowScenarios(tier string) []scenario {
 	for _, k := range []connCfg{{Client: false}, {Client: true}} {
 		for _, d := range [][2]time.Duration{{3500 * time.Millisecond, 2500 * time.Millisecond}, {4900 * time.Millisecond, 4900 * time.Millisecond}, {0, 4900 * time.Millisecond}} {
 			scs = append(scs, scenario{Name: fmt.Sprintf("slow/%v+%v/%s", d[0], d[1], k.String()), Cfg: cfg, Setup: c06SlowSetup(k, d[0], d[1])})
+		}
+		for _, d := range [][2]time.Duration{{300 * time.Millisecond, 400 * time.Millisecond}, {10 * time.Second, 400 * time.Millisecond}, {300 * time.Millisecond, 4500 * time.Millisecond}, {550 * time.Millisecond, 400 * time.Millisecond}} {
+			scs = append(scs, scenario{Name: fmt.Sprintf("slow-echo/%v+%v/%s", d[0], d[1], k.String()), Cfg: cfg, Setup: c06SlowEchoSetup(k, d[0], d[1])})
 		}
 	}
 	return scs
